@@ -298,7 +298,14 @@ class Ctx:
         errors = []
         pending = list(files)
         running = []
-        while pending or running:
+        retry, retried = [], set()
+        while pending or running or retry:
+            if not pending and not running and retry:
+                k, name = retry.pop(0)
+                p = subprocess.Popen(['timeout', str(2 * timeout), 'coqc', '-Q', COQ_STATIC, 'Verif', '-Q',
+                                      self.build, 'Run', name], cwd=self.build,
+                                     stdout=subprocess.PIPE, stderr=subprocess.STDOUT, text=True)
+                running.append((k, name, p))
             while pending and len(running) < NCPU:
                 k, name = pending.pop(0)
                 p = subprocess.Popen(['timeout', str(timeout), 'coqc', '-Q', COQ_STATIC, 'Verif', '-Q',
@@ -311,8 +318,14 @@ class Ctx:
                     still.append((k, name, p))
                     continue
                 out = clean_out(p.stdout.read())
+                if p.returncode != 0 and not re.search(r'Error|error', out) and name not in retried:
+                    # killed from outside (time limit under load, memory pressure): no Coq error message.  Evaluate the
+                    # shard once more, alone, after the others, with twice the time limit.
+                    retried.add(name)
+                    retry.append((k, name))
+                    continue
                 if p.returncode != 0:
-                    errors.append((name, compact_coq_error(out)))
+                    errors.append((name, compact_coq_error(out) or f'coqc exited with status {p.returncode} and no message (killed?)'))
                     continue
                 got = False
                 for m in re.finditer(r'"((?:[^"]|"")*)"', out):
